@@ -1,6 +1,6 @@
 #!/bin/sh
 # usage: tools/run_all.sh [quick|thorough] [Cxx ...] -- run the registered command of every (or the named) check one after the other on the
-# current /repo tree, print one summary line each and the wall time; used to size the tiers and to refresh evidence/ before a commit.
+# current /repo tree, print one summary line each and record wall time + exit code in tier_times.json (quoted in DESIGN.md 6.5).
 TIER=${1:-quick}; shift
 HERE=$(cd "$(dirname "$0")/.." && pwd)
 IDS=${*:-C01 C02 C03 C04 C05 C06 C07 C08 C09 C10 C11 C12 C13 C14 C15 C16 C17 C18 C19 C20}
@@ -8,6 +8,18 @@ for c in $IDS; do
   s=$(date +%s)
   out=$("$HERE/bin/check" "$c" --tier "$TIER" 2>/dev/null); rc=$?
   e=$(date +%s)
-  echo "$c tier=$TIER rc=$rc wall=$((e-s))s | $(echo "$out" | grep -E "^$c \[" | tail -1 | cut -c1-220)"
+  line=$(echo "$out" | grep -E "^$c \[" | tail -1 | cut -c1-220)
+  echo "$c tier=$TIER rc=$rc wall=$((e-s))s | $line"
   echo "$out" | grep -E "^(VIOLATION|INCONCLUSIVE)" | head -5 | cut -c1-300
+  python3 - "$HERE/tier_times.json" "$c" "$TIER" "$rc" "$((e-s))" "$line" <<'PY'
+import json, sys, time, subprocess
+p, c, tier, rc, wall, line = sys.argv[1:7]
+try:
+    d = json.load(open(p))
+except Exception:
+    d = {}
+head = subprocess.run("git -C /repo rev-parse --short HEAD", shell=True, capture_output=True, text=True).stdout.strip()
+d.setdefault(c, {})[tier] = {"exit": int(rc), "wall_s": int(wall), "summary": line, "repo_head": head, "when": time.strftime("%Y-%m-%dT%H:%MZ", time.gmtime())}
+json.dump(d, open(p, "w"), indent=1, sort_keys=True)
+PY
 done
